@@ -19,9 +19,12 @@ Variable maxpen : Z.
 Hypothesis Hpen : forall p ch, In ch (p_choices (prt parts p)) -> (0 <= ch_pen ch <= maxpen)%Z.
 Hypothesis Hmaxpen : (0 <= maxpen)%Z /\ (Z.of_nat np * maxpen < WEIGHT_OFFSET)%Z.
 
+Lemma no_rooms_val : forall (nd : node) (a : assignment), exists o, no_rooms nd a = Val o.
+Proof. intros. exists None. reflexivity. Qed.
+
 Definition the_pick := pick_real courses parts pick_wrong.
 Definition f (nd : node) : EngP2.nres node assignment :=
-  match run courses parts the_pick nd with
+  match run courses parts no_rooms the_pick nd with
   | Val NoSolution => EngP2.NoSol _ _
   | Val (Infeasible cs s) => EngP2.Infeas _ _ cs s
   | Val (Feasible a s) => EngP2.Feas _ _ a s
@@ -52,16 +55,16 @@ Proof.
     intros t0. constructor; cbn; auto; [intros c H; discriminate|intros c []|constructor].
   - (* "no solution" nodes cover nothing *)
     intros nd t0 Hf Hcov. unfold f in Hf.
-    pose proof (covered_node_bound courses parts the_pick Hinstr_rng Hpairs nd (t_K t0) (t_a t0) (t_sol t0) Hcov) as B.
-    destruct (run courses parts the_pick nd) as [[| |]| |]; try discriminate; exact B.
+    pose proof (covered_node_bound courses parts no_rooms the_pick Hinstr_rng Hpairs nd (t_K t0) (t_a t0) (t_sol t0) Hcov no_rooms_val) as B.
+    destruct (run courses parts no_rooms the_pick nd) as [[| |]| |]; try discriminate; exact B.
   - (* feasible nodes dominate what they cover *)
     intros nd x s t0 Hf Hcov. unfold f in Hf.
-    pose proof (covered_node_bound courses parts the_pick Hinstr_rng Hpairs nd (t_K t0) (t_a t0) (t_sol t0) Hcov) as B.
-    destruct (run courses parts the_pick nd) as [[| |]| |]; try discriminate. inversion Hf; subst. exact B.
+    pose proof (covered_node_bound courses parts no_rooms the_pick Hinstr_rng Hpairs nd (t_K t0) (t_a t0) (t_sol t0) Hcov no_rooms_val) as B.
+    destruct (run courses parts no_rooms the_pick nd) as [[| |]| |]; try discriminate. inversion Hf; subst. exact B.
   - (* branching nodes dominate and hand on *)
     intros nd cs s t0 Hf Hcov. unfold f in Hf.
-    pose proof (covered_node_bound courses parts the_pick Hinstr_rng Hpairs nd (t_K t0) (t_a t0) (t_sol t0) Hcov) as B.
-    destruct (run courses parts the_pick nd) as [[|cs' s'|]| |] eqn:Er; try discriminate. inversion Hf; subst. split; [exact B|].
+    pose proof (covered_node_bound courses parts no_rooms the_pick Hinstr_rng Hpairs nd (t_K t0) (t_a t0) (t_sol t0) Hcov no_rooms_val) as B.
+    destruct (run courses parts no_rooms the_pick nd) as [[|cs' s'|]| |] eqn:Er; try discriminate. inversion Hf; subst. split; [exact B|].
     apply (branch_covers courses parts pick_wrong Hone Hminmax maxpen Hpen Hmaxpen nd (t_K t0) (t_a t0) (t_sol t0) (t_fix t0) Hcov cs s Er).
   - intros t0. apply Hrange.
   - intros t0. apply Hrange.
